@@ -440,6 +440,9 @@ type factorizer struct {
 	localAt  map[string][]*yn // local grouping name -> nodes holding a grouping of that name
 	gseq     int
 	useFeat  bool
+	// prefer: a grouping that is used several times; half of the outlining steps work inside it (nested uses, uses-level augments
+	// that are then expanded once per use of the outer grouping)
+	prefer *yn
 }
 
 func (f *factorizer) step(s string) { f.steps[s] = true }
@@ -528,6 +531,22 @@ func isKeyLeaf(parent *yn, k *yn) bool {
 func (f *factorizer) outlineGrouping() {
 	ss := f.sites()
 	s := ss[f.r.Intn(len(ss))]
+	preferred := false
+	if f.prefer != nil && f.r.Intn(2) == 0 {
+		var in []site
+		for _, c := range ss {
+			for _, a := range c.chain {
+				if a == f.prefer {
+					in = append(in, c)
+					break
+				}
+			}
+		}
+		if len(in) > 0 {
+			s = in[f.r.Intn(len(in))]
+			preferred = true
+		}
+	}
 	kids := &f.top
 	if s.node != nil {
 		kids = &s.node.kids
@@ -628,8 +647,11 @@ func (f *factorizer) outlineGrouping() {
 	if u.own {
 		f.step("uses-own-prefix")
 	}
-	if f.r.Intn(3) == 0 {
+	if f.r.Intn(3) == 0 || preferred && f.r.Intn(2) == 0 {
 		f.usesAugment(u, run)
+	}
+	if preferred {
+		f.step("nested-uses-in-reused-grouping")
 	}
 	nk := append([]*yn{}, (*kids)[:start]...)
 	nk = append(nk, u)
@@ -1020,6 +1042,7 @@ func (p c01) Run(c *core.Ctx, idx int) {
 			} else {
 				// one grouping for the template, one uses per site with its refines
 				gy := &yn{kw: "grouping", arg: ru.gname, kids: toSyntax(ru.tmpl)}
+				f.prefer = gy
 				place := r.Intn(3)
 				usesArg := ru.gname
 				switch place {
